@@ -1,14 +1,8 @@
-//go:build !v4
-
 package main
 
 import (
-	"bytes"
 	stdjson "encoding/json"
 	"fmt"
-	"strings"
-
-	codec "github.com/evanphx/json-patch/v5/verifcodec"
 
 	"verifharness/jsonread"
 	"verifharness/lib"
@@ -37,15 +31,6 @@ func toBytes(a []int) []byte {
 		b[i] = byte(c)
 	}
 	return b
-}
-
-// normBF rewrites the two escapes whose spelling differs between Go releases (\b \f versus
-// \u0008 \u000c) to one form, inside strings only.
-func normBF(text []byte) []byte {
-	s := string(text)
-	s = strings.ReplaceAll(s, `\u0008`, `\b`)
-	s = strings.ReplaceAll(s, `\u000c`, `\f`)
-	return []byte(s)
 }
 
 func (e *engine) checkWordLine(worker int, raw []byte) error {
@@ -112,7 +97,7 @@ func (e *engine) checkWordLine(worker int, raw []byte) error {
 			e.wordAcceptance(&ln, text, expect, try)
 		case "C17":
 			if vi == 0 {
-				e.wordCodec(&ln, text, viol, try)
+				wordCodecHook(e, &ln, text, viol, try)
 			}
 		}
 	}
@@ -129,17 +114,7 @@ func (e *engine) wordAcceptance(ln *wordLine, text []byte, expect func(string, b
 	v := ln.Valid
 	isNull := v && ln.Root == "null"
 	if e.prop != "C06" {
-		expect("codec.Valid", v, false, func() bool { return codec.Valid(text) })
-		expect("codec.Compact", v, false, func() bool { var b bytes.Buffer; return codec.Compact(&b, text) == nil })
-		expect("codec.Indent", v, false, func() bool { var b bytes.Buffer; return codec.Indent(&b, text, "", " ") == nil })
-		expect("codec.Unmarshal", v, false, func() bool { var x interface{}; return codec.Unmarshal(text, &x) == nil })
-		if v {
-			expect("codec.UnmarshalValid", true, false, func() bool { var x interface{}; return codec.UnmarshalValid(text, &x) == nil })
-			expect("codec.Decoder.Decode", true, false, func() bool {
-				var x interface{}
-				return codec.NewDecoder(bytes.NewReader(text)).Decode(&x) == nil
-			})
-		}
+		codecAcceptance(text, v, expect)
 		expect("DecodePatch", v && ln.PatchOK, isNull, func() bool { _, err := lib.DecodePatch(text); return err == nil })
 		container := v && (ln.Root == "obj" || ln.Root == "arr")
 		expect("Apply(document)", container, false, func() bool {
@@ -153,226 +128,60 @@ func (e *engine) wordAcceptance(ln *wordLine, text []byte, expect func(string, b
 		expect("CreateMergePatch", v && (ln.CreateKind == "obj" || ln.CreateKind == "arr"), ln.CreateKind == "dc",
 			func() bool { _, err := lib.CreateMergePatch(text, text); return err == nil })
 	}
+	if e.prop == "C04" {
+		// the oracle of C04 is "the call returned": use every word as a document under real operations,
+		// as a patch on the probe documents, with every option combination, and through ApplyIndent
+		for _, pt := range probePatches {
+			for _, o := range probeOpts {
+				if !lib.Supported(o) {
+					continue
+				}
+				try("Apply(document, probe patch)", func() bool { _, aerr, derr := lib.Apply(text, pt, o, ""); return aerr == nil && derr == nil })
+			}
+		}
+		try("ApplyIndent(document)", func() bool {
+			_, aerr, derr := lib.Apply(text, probePatches[0], lib.Opts{Neg: true, Esc: true}, "\t")
+			return aerr == nil && derr == nil
+		})
+		try("DecodePatch+Apply(patch)", func() bool {
+			p, err := lib.DecodePatch(text)
+			if err != nil {
+				return false
+			}
+			for _, k := range p {
+				k.Kind()
+				k.Path()
+				k.From()
+				k.ValueInterface()
+			}
+			for _, d := range probeDocs {
+				for _, o := range probeOpts {
+					if lib.Supported(o) {
+						lib.ApplyDecoded(p, d, o, "")
+					}
+				}
+			}
+			return true
+		})
+		try("MergePatch(w,w)", func() bool { _, err := lib.MergePatch(text, text); return err == nil })
+		try("MergeMergePatches(w,w)", func() bool { _, err := lib.MergeMergePatches(text, text); return err == nil })
+		try("CreateMergePatch(w,{})", func() bool { _, err := lib.CreateMergePatch(text, emptyObj); return err == nil })
+		try("CreateMergePatch({},w)", func() bool { _, err := lib.CreateMergePatch(emptyObj, text); return err == nil })
+	}
 	expect("Equal(w,w)", v, false, func() bool { return lib.Equal(text, text) })
 	expect("Equal(w,1)", ln.EqOne, false, func() bool { return lib.Equal(text, one) })
 	expect("Equal(1,w)", ln.EqOne, false, func() bool { return lib.Equal(one, text) })
 }
 
-// wordCodec: the embedded codec is faithful (C17), judged against the specification's
-// transducers (bytes) and values, and against the standard library where they overlap.
-func (e *engine) wordCodec(ln *wordLine, text []byte, viol func(string, string, map[string]interface{}) *lib.Violation,
-	try func(string, func() bool) (bool, bool)) {
-	cmpBytes := func(api string, got []byte, gerr error, want []byte, wantOK bool) {
-		if (gerr == nil) != wantOK {
-			e.rep.Report(viol("codec-outcome", fmt.Sprintf("%s: error %v, specification accepts = %v", api, gerr, wantOK), map[string]interface{}{"api": api}))
-			return
-		}
-		if wantOK && !bytes.Equal(got, want) {
-			e.rep.Report(viol("codec-bytes", api+" output differs from the specification's transducer",
-				map[string]interface{}{"api": api, "got": string(got), "want": string(want)}))
-		}
-	}
-	try("codec.Compact", func() bool {
-		var b bytes.Buffer
-		err := codec.Compact(&b, text)
-		cmpBytes("Compact", b.Bytes(), err, toBytes(ln.Compact), ln.Valid)
-		var sb bytes.Buffer
-		serr := stdjson.Compact(&sb, text)
-		if (serr == nil) != (err == nil) || !bytes.Equal(sb.Bytes(), b.Bytes()) {
-			e.rep.Report(viol("std-diff", "Compact differs from encoding/json", map[string]interface{}{"api": "Compact", "fork": b.String(), "std": sb.String()}))
-		}
-		return true
-	})
-	try("codec.Indent", func() bool {
-		var b bytes.Buffer
-		err := codec.Indent(&b, text, "", "\t")
-		cmpBytes("Indent(\"\",\"\\t\")", b.Bytes(), err, toBytes(ln.Indent), ln.Valid)
-		var b2 bytes.Buffer
-		err2 := codec.Indent(&b2, text, ">", "  ")
-		cmpBytes("Indent(\">\",\"  \")", b2.Bytes(), err2, toBytes(ln.IndentP), ln.Valid)
-		var sb bytes.Buffer
-		serr := stdjson.Indent(&sb, text, ">", "  ")
-		if (serr == nil) != (err2 == nil) || !bytes.Equal(sb.Bytes(), b2.Bytes()) {
-			e.rep.Report(viol("std-diff", "Indent differs from encoding/json", map[string]interface{}{"api": "Indent", "fork": b2.String(), "std": sb.String()}))
-		}
-		return true
-	})
-	try("codec.HTMLEscape", func() bool {
-		var b bytes.Buffer
-		codec.HTMLEscape(&b, text)
-		cmpBytes("HTMLEscape", b.Bytes(), nil, toBytes(ln.HTMLEsc), true)
-		return true
-	})
-	if !ln.Valid {
-		return
-	}
-	want, err := jsonread.FromWire(ln.Val)
-	if err != nil {
-		return
-	}
-	try("codec.MarshalEscaped(RawMessage)", func() bool {
-		// compact(escape=true) is reached through the encoder: a RawMessage is compacted with the escape flag
-		out, err := codec.MarshalEscaped(codec.RawMessage(text), true)
-		cmpBytes("compact(escape)", out, err, toBytes(ln.CompactEsc), true)
-		out0, err0 := codec.MarshalEscaped(codec.RawMessage(text), false)
-		cmpBytes("compact(no escape)", out0, err0, toBytes(ln.Compact), true)
-		return true
-	})
-	try("codec.Unmarshal/Marshal", func() bool {
-		var x interface{}
-		if err := codec.Unmarshal(text, &x); err != nil {
-			e.rep.Report(viol("codec-outcome", "Unmarshal rejects a well-formed text: "+err.Error(), map[string]interface{}{"api": "Unmarshal"}))
-			return true
-		}
-		for _, esc := range []bool{true, false} {
-			out, err := codec.MarshalEscaped(x, esc)
-			var got *jsonread.Value
-			if err == nil {
-				got, err = jsonread.Parse(out)
-			}
-			if err != nil || got.CanonKey() != want.CanonKey() {
-				e.rep.Report(viol("roundtrip", "decode then encode does not reproduce the value (numbers by literal, strings by code points)",
-					map[string]interface{}{"api": "Unmarshal+MarshalEscaped", "esc": esc, "out": string(out), "err": errString(err)}))
-				return true
-			}
-			if esc && rawHTML(out) != "" {
-				e.rep.Report(viol("raw-html", "MarshalEscaped(escape) leaves "+rawHTML(out)+" unescaped", map[string]interface{}{"api": "MarshalEscaped", "out": string(out)}))
-			}
-		}
-		// the same through UnmarshalValid
-		var y interface{}
-		if err := codec.UnmarshalValid(text, &y); err != nil {
-			e.rep.Report(viol("codec-outcome", "UnmarshalValid fails on a well-formed text: "+err.Error(), map[string]interface{}{"api": "UnmarshalValid"}))
-			return true
-		}
-		o1, _ := codec.Marshal(x)
-		o2, _ := codec.Marshal(y)
-		if !bytes.Equal(o1, o2) {
-			e.rep.Report(viol("roundtrip", "Unmarshal and UnmarshalValid decode differently", map[string]interface{}{"api": "UnmarshalValid", "a": string(o1), "b": string(o2)}))
-		}
-		// the standard library on the same text (numbers as json.Number); \b \f spelling normalised
-		var sx interface{}
-		dec := stdjson.NewDecoder(bytes.NewReader(text))
-		dec.UseNumber()
-		if err := dec.Decode(&sx); err == nil {
-			so, _ := stdjson.Marshal(sx)
-			if !bytes.Equal(normBF(so), normBF(o1)) {
-				e.rep.Report(viol("std-diff", "Unmarshal+Marshal differs from encoding/json", map[string]interface{}{"api": "Marshal", "fork": string(o1), "std": string(so)}))
-			}
-		}
-		return true
-	})
-	if ln.Root == "obj" && !want.HasDupKeys() {
-		try("codec.UnmarshalWithKeys", func() bool {
-			var wantKeys []string
-			for _, m := range want.M {
-				wantKeys = append(wantKeys, string(m.K))
-			}
-			for name, f := range map[string]func([]byte, interface{}) ([]string, error){"UnmarshalWithKeys": codec.UnmarshalWithKeys, "UnmarshalValidWithKeys": codec.UnmarshalValidWithKeys} {
-				m := map[string]interface{}{}
-				keys, err := f(text, &m)
-				if err != nil || strings.Join(keys, "\x00") != strings.Join(wantKeys, "\x00") || len(keys) != len(wantKeys) {
-					e.rep.Report(viol("keys", name+" does not report the member names in document order",
-						map[string]interface{}{"api": name, "keys": keys, "want": wantKeys, "err": errString(err)}))
-				}
-			}
-			return true
-		})
-	}
+var probePatches = [][]byte{
+	[]byte(`[{"op":"add","path":"/a","value":1},{"op":"test","path":"","value":null},{"op":"remove","path":"/a"}]`),
+	[]byte(`[{"op":"test","path":"/0","value":[null]},{"op":"copy","from":"","path":"/-"}]`),
+	[]byte(`[{"op":"replace","path":"","value":null},{"op":"add","path":"/0","value":1}]`),
+	[]byte(`[{"op":"add","path":"/a/b/0/c","value":null},{"op":"move","from":"/a","path":"/b"},{"op":"test","path":"/b","value":{"b":[{"c":null}]}}]`),
+	[]byte(`[{"op":"copy","from":"/0","path":"/1"},{"op":"test","path":"/1"},{"op":"replace","path":"/0","value":[null]},{"op":"test","path":"/0","value":[null]}]`),
 }
 
-// One printed state of MCCodec: a universe value with the encoder's spellings.
-type encLine struct {
-	Fam       string             `json:"fam"`
-	V         stdjson.RawMessage `json:"v"`
-	Text      []int              `json:"text"`
-	SortedEsc []int              `json:"sortedesc"`
-	SortedRaw []int              `json:"sortedraw"`
-	Keys      [][]int            `json:"keys"`
-}
-
-func (e *engine) checkEncLine(worker int, raw []byte) error {
-	var ln encLine
-	if err := stdjson.Unmarshal(raw, &ln); err != nil {
-		return fmt.Errorf("bad enc line: %v", err)
-	}
-	v, err := jsonread.FromWire(ln.V)
-	if err != nil {
-		return err
-	}
-	text := toBytes(ln.Text)
-	e.rep.Count("transitions", 1)
-	e.rep.Label("Enc_" + v.T)
-	e.rep.Nontrivial(string(text))
-	if v.T == "obj" && len(v.M) >= 2 {
-		e.rep.Sample(map[string]interface{}{"text": string(text), "spec_sorted_escaped": string(toBytes(ln.SortedEsc))})
-	}
-	// projection self-check: the harness's canonical writer is the specification's Enc(v, FALSE)
-	if !bytes.Equal(jsonread.Canonical.Render(v), text) {
-		return fmt.Errorf("projection self-check: canonical writer %q differs from spec Enc %q", jsonread.Canonical.Render(v), text)
-	}
-	viol := func(kind, detail string, extra map[string]interface{}) *lib.Violation {
-		c := map[string]interface{}{"fam": "enc", "text": string(text), "line": ln}
-		for k, x := range extra {
-			c[k] = x
-		}
-		return &lib.Violation{Property: e.prop, Kind: kind, Detail: detail,
-			Sig: map[string]string{"fam": "enc", "kind": kind, "lab": "", "lastop": "", "api": fmt.Sprint(extra["api"])}, Case: c}
-	}
-	hang := func() *lib.Violation { return viol("hang", "", nil) }
-	pan := e.wd.Guard(worker, hang, func() {
-		var x interface{}
-		if err := codec.Unmarshal(text, &x); err != nil {
-			e.rep.Report(viol("codec-outcome", "Unmarshal rejects the encoder's own spelling: "+err.Error(), map[string]interface{}{"api": "Unmarshal"}))
-			return
-		}
-		for _, c := range []struct {
-			esc  bool
-			want []byte
-		}{{true, toBytes(ln.SortedEsc)}, {false, toBytes(ln.SortedRaw)}} {
-			out, err := codec.MarshalEscaped(x, c.esc)
-			if err != nil || !bytes.Equal(out, c.want) {
-				e.rep.Report(viol("codec-bytes", "decode then MarshalEscaped differs from the specification's Enc (keys sorted)",
-					map[string]interface{}{"api": "MarshalEscaped", "esc": c.esc, "got": string(out), "want": string(c.want), "err": errString(err)}))
-			}
-		}
-		out, err := codec.Marshal(x)
-		if err != nil || !bytes.Equal(out, toBytes(ln.SortedEsc)) {
-			e.rep.Report(viol("codec-bytes", "Marshal (HTML escaping on by default) differs from Enc(v, TRUE)", map[string]interface{}{"api": "Marshal", "got": string(out)}))
-		}
-		// the standard library on the same text
-		var sx interface{}
-		dec := stdjson.NewDecoder(bytes.NewReader(text))
-		dec.UseNumber()
-		if err := dec.Decode(&sx); err == nil {
-			so, _ := stdjson.Marshal(sx)
-			if !bytes.Equal(normBF(so), normBF(out)) {
-				e.rep.Report(viol("std-diff", "Unmarshal+Marshal differs from encoding/json", map[string]interface{}{"api": "Marshal", "fork": string(out), "std": string(so)}))
-			}
-		}
-		if v.T == "obj" && !v.HasDupKeys() {
-			var wantKeys []string
-			for _, k := range ln.Keys {
-				wantKeys = append(wantKeys, cpString(k))
-			}
-			m := map[string]interface{}{}
-			keys, err := codec.UnmarshalWithKeys(text, &m)
-			if err != nil || fmt.Sprintf("%q", keys) != fmt.Sprintf("%q", wantKeys) {
-				e.rep.Report(viol("keys", "UnmarshalWithKeys does not report the member names in document order",
-					map[string]interface{}{"api": "UnmarshalWithKeys", "keys": keys, "want": wantKeys}))
-			}
-		}
-		// stream round trip: Encoder then Decoder
-		var buf bytes.Buffer
-		enc := codec.NewEncoder(&buf)
-		enc.SetEscapeHTML(false)
-		if err := enc.Encode(x); err != nil || !bytes.Equal(bytes.TrimSuffix(buf.Bytes(), []byte("\n")), toBytes(ln.SortedRaw)) {
-			e.rep.Report(viol("codec-bytes", "Encoder (EscapeHTML off) differs from Enc(v, FALSE)", map[string]interface{}{"api": "Encoder", "got": buf.String()}))
-		}
-	})
-	e.rep.Count("executions", 1)
-	if pan != "" {
-		e.rep.Report(viol("panic", "codec panicked: "+firstLine(pan), map[string]interface{}{"api": "codec"}))
-	}
-	return nil
+var probeOpts = []lib.Opts{
+	{Neg: true, Esc: true}, {Neg: false, Esc: false}, {Neg: true, Allow: true, Ensure: true, Esc: true}, {Ensure: true}, {Allow: true, Limit: 1, Esc: true},
+	{Neg: true, Limit: 5, Esc: true},
 }
